@@ -525,6 +525,36 @@ func C09Corpus(args []string) {
 		if hx.Evs(trB.Events) != hx.Evs(bpTrace.Events) {
 			report("C09:operation-on-instance-changes-other-instance", fmt.Sprintf("instance B after operations on A: %v, expected %v\n  grl: %s", trB.Events, bpTrace.Events, p.Text), id)
 		}
+		// one data context serves instance A, then instance B (the caller puts the initial values back into the same
+		// fact objects): B behaves like the blueprint - nothing of A (its working memory, its built-in function
+		// holder) is reachable from B through the data context. Programs announcing changes with Forget / Changed.
+		if strings.Contains(p.Text, "Forget(") || strings.Contains(p.Text, "Changed(") {
+			w0 := mkWorld()
+			if len(w0.Vars) == 0 && len(w0.JSON) == 0 {
+				if dc, err := hx.NewDataContext(w0); err == nil {
+					ia, errA := b.Instance()
+					ib, errB := b.Instance()
+					if errA == nil && errB == nil {
+						first := hx.RunOn(p, ia, w0, hx.RunOpts{MaxCycle: 6, NoSnapshots: true, DataCtx: dc}, nil)
+						if !first.Completed && first.Panic == nil {
+							init := mkWorld()
+							for name, f := range w0.Objs {
+								if g, ok := init.Objs[name]; ok {
+									*f = *g
+								}
+							}
+							second := hx.RunOn(p, ib, w0, hx.RunOpts{MaxCycle: 6, NoSnapshots: true, DataCtx: dc}, nil)
+							mu.Lock()
+							nBehav++
+							mu.Unlock()
+							if hx.Evs(second.Events) != hx.Evs(bpTrace.Events) {
+								report("C09:instance-reaches-another-instance-through-a-shared-data-context", fmt.Sprintf("instance B executed with the data context that served instance A before (initial values put back): %v\n  the blueprint: %v\n  grl: %s", second.Events, bpTrace.Events, p.Text), id)
+							}
+						}
+					}
+				}
+			}
+		}
 		// the library evolves BETWEEN instantiations (instances were created above): a rule is removed from the
 		// library, later another one is built into it; every later NewKnowledgeBaseInstance succeeds and the
 		// instance behaves like the same rules built fresh; an instance obtained earlier is unaffected
